@@ -304,6 +304,10 @@ func (t *Task) runWithLocking() {
 
 	// enter executing state
 	t.executing = true
+	// reset executeAt to detect if task set next execution itself
+	// This must be done here while holding the lock: a Schedule() that arrives
+	// after this point is meant for the next execution and must not be erased.
+	t.executeAt = time.Time{}
 	t.lock.Unlock()
 	vhook.AtS("modules.task.cleared", t.name)
 
@@ -381,9 +385,6 @@ func (t *Task) executeWithLocking() {
 
 		t.lock.Unlock()
 	}()
-
-	// reset executeAt to detect if task set next execution itself
-	t.executeAt = time.Time{}
 
 	// run
 	err := t.taskFn(t.ctx, t)
